@@ -232,4 +232,43 @@ func extractC13(o *out) {
 		fail("newUser no longer ranges over connections")
 	}
 	fmt.Fprintf(b, "/-- newUser takes the lowest free slot of `connections`; does it also consult `oldConnections`? -/\ndef newUserLooksAtRetired : Bool := %v\n", mentionsOld)
+
+	// newUser: every session it returns is one it has just created in an empty slot (`if u == nil { u = &userConnection{…};
+	// s.connections[i] = u; s.accept <- u; return u, nil }`), and every such session is handed to Accept
+	returnsExisting, freshReturns, accepts := false, 0, 0
+	var stack []ast.Node
+	ast.Inspect(nu.Body, func(n ast.Node) bool {
+		if n == nil {
+			stack = stack[:len(stack)-1]
+			return true
+		}
+		inFresh := false
+		for _, a := range stack {
+			if is, ok := a.(*ast.IfStmt); ok {
+				if be, ok := is.Cond.(*ast.BinaryExpr); ok && be.Op == token.EQL && exprString(be.X) == "u" && exprString(be.Y) == "nil" {
+					inFresh = true
+				}
+			}
+		}
+		switch x := n.(type) {
+		case *ast.ReturnStmt:
+			if len(x.Results) == 2 && exprString(x.Results[0]) != "nil" {
+				if inFresh {
+					freshReturns++
+				} else {
+					returnsExisting = true
+				}
+			}
+		case *ast.SendStmt:
+			if inFresh && exprString(x.Chan) == "s.accept" && exprString(x.Value) == "u" {
+				accepts++
+			}
+		}
+		stack = append(stack, n)
+		return true
+	})
+	if freshReturns != 1 || accepts != 1 {
+		fail("newUser: the `if u == nil { …; s.accept <- u; return u, nil }` block is not in the recognised shape (%d returns, %d sends to s.accept)", freshReturns, accepts)
+	}
+	fmt.Fprintf(b, "/-- does newUser have a return path that hands out a session which was in `connections` already (instead of one it\n    has just created in an empty slot and sent to `accept`)? -/\ndef newUserReturnsExisting : Bool := %v\n", returnsExisting)
 }
